@@ -1146,7 +1146,35 @@ func (d *drv) scionTarget(s step, sentinel []byte) (dst *net.UDPAddr, cp, lp int
 	return
 }
 
-// scionProbe builds the datagram of a scripted SCION step.
+// UDP length field of a request (hdrSpec.ulen): 0 the true length; otherwise the field is
+// overwritten after the packet was built (the checksum, which no listener verifies, stays)
+const (
+	ulenExact   = 0
+	ulenZero    = 1 // 0: "the entire rest of the datagram"
+	ulenHdrOnly = 2 // 8: no payload at all, whatever follows
+	ulenNTPOnly = 3 // 8+48: the NTP header is the payload, what follows it is not
+	ulenTiny    = 4 // 1..7: no UDP datagram has such a length
+)
+
+// ulenField: the value of the length field, and the payload it delimits (nil, false: none).
+func ulenField(mode uint8, after []byte) (field int, eff []byte, ok bool) {
+	switch mode {
+	case ulenZero:
+		return 0, after, true
+	case ulenHdrOnly:
+		return 8, nil, true
+	case ulenNTPOnly:
+		if len(after) >= ntp.PacketLen {
+			return 8 + ntp.PacketLen, after[:ntp.PacketLen], true
+		}
+	case ulenTiny:
+		return 1 + len(after)%7, nil, false
+	}
+	return 8 + len(after), after, true
+}
+
+// scionProbe builds the datagram of a scripted SCION step.  payload is what follows the UDP
+// header; ntsok describes the payload the length field delimits.
 func (d *drv) scionProbe(s step, firstReply [][]byte, r *lib.Rng) (hdr hdrSpec, payload []byte, ntsok string, pkt []byte, err error) {
 	hdr = *s.hdr
 	if hdr.fwd > 0 {
@@ -1157,14 +1185,23 @@ func (d *drv) scionProbe(s step, firstReply [][]byte, r *lib.Rng) (hdr hdrSpec, 
 		hdr.dstType, hdr.dstRaw = 0, []byte(la.IP.To4())
 	}
 	payload = d.payloadOf(s, firstReply, r)
-	ntsok = d.ntsField(labelOf(s), payload)
+	field, eff, _ := ulenField(hdr.ulen, payload)
+	label := labelOf(s)
+	if len(eff) != len(payload) {
+		label = ntsNo // cut off at the NTP header (or before): no NTS request left
+	}
+	ntsok = d.ntsField(label, eff)
 	pkt, err = buildSCION(&hdr, payload)
+	if err == nil && hdr.ulen != ulenExact {
+		binary.BigEndian.PutUint16(pkt[len(pkt)-len(payload)-8+4:], uint16(field))
+	}
 	return
 }
 
-func scionStepObs(cp, lp, sender int, hdr *hdrSpec, payload []byte, ntsok string, reps []obs, sh *hdrSpec, sentinel []byte, sreps []obs) string {
+func scionStepObs(cp, lp, sender int, hdr *hdrSpec, payload []byte, dlen int, ntsok string, reps []obs, sh *hdrSpec, sentinel []byte, sreps []obs) string {
+	field, _, _ := ulenField(hdr.ulen, payload)
 	return lib.L(lib.I(int64(cp)), lib.I(int64(lp)), lib.I(int64(sender)),
-		hdr.modelString(), lib.B(payload), ntsok, lib.I(spaoClass(hdr.spao)), reversed(hdr.pathType, hdr.pathRaw), scionObsList(reps),
+		hdr.modelString(), lib.B(payload), lib.I(int64(field)), lib.I(int64(dlen)), ntsok, lib.I(spaoClass(hdr.spao)), reversed(hdr.pathType, hdr.pathRaw), scionObsList(reps),
 		sh.modelString(), lib.B(sentinel), reversed(sh.pathType, sh.pathRaw), scionObsList(sreps))
 }
 
@@ -1208,7 +1245,7 @@ func (d *drv) runSCION(tags string, steps []step, r *lib.Rng) {
 				firstReply[i] = pl
 			}
 		}
-		outs = append(outs, scionStepObs(cp, lp, s.sender, &hdr, payload, ntsok, reps, sh, sentinel, sreps))
+		outs = append(outs, scionStepObs(cp, lp, s.sender, &hdr, payload, len(pkt), ntsok, reps, sh, sentinel, sreps))
 	}
 	emitCase(kind, tags, args, lib.V("0", lib.L(outs...)))
 }
@@ -1289,7 +1326,7 @@ func (d *drv) runMixed(tags string, steps []step, r *lib.Rng) {
 		if it.s.hdr == nil {
 			outs = append(outs, lib.L(lib.I(int64(it.s.sender)), lib.B(it.payload), it.ntsok, obsList(it.col.reps), lib.B(it.sentinel), obsList(it.col.sreps)))
 		} else {
-			outs = append(outs, scionStepObs(it.cp, it.lp, it.s.sender, &it.hdr, it.payload, it.ntsok, it.col.reps, it.sh, it.sentinel, it.col.sreps))
+			outs = append(outs, scionStepObs(it.cp, it.lp, it.s.sender, &it.hdr, it.payload, len(it.pkt), it.ntsok, it.col.reps, it.sh, it.sentinel, it.col.sreps))
 		}
 	}
 	emitCase("mixed", tags, args, lib.V("0", lib.L(outs...)))
